@@ -134,8 +134,8 @@ def run_prop(prop, tier, ctx=None, quiet=False):
             counts[o.rule] = counts.get(o.rule, 0) + 1
         if not any(o.status == VIOLATED for o in obs):
             for rule, mn in registry.expect_for(prop).items():
-                if counts.get(rule, 0) < mn:
-                    raise AnalysisBroken(f'rule {rule} produced {counts.get(rule, 0)} obligations, fewer than the {mn} confirmed by hand '
+                if counts.get(rule, 0) < max(1, (mn * 7) // 10):
+                    raise AnalysisBroken(f'rule {rule} produced {counts.get(rule, 0)} obligations, fewer than 70% of the {mn} confirmed by hand on the pinned tree '
                                          f'(a rule that matches nothing never passes silently)')
         extra = {'constexpr_if_sites': len(cov), 'constexpr_if_arms_covered': sum(len(v) for v in cov.values())}
         # positive self-tests: every expected-zero rule must fire on its tiny example
